@@ -76,6 +76,10 @@ func cfgOf(name string) world.Cfg {
 		c.IKPolicy, c.IKCap, c.SharedIK, c.SKPolicy, c.SKCap = "lru", 1, true, "lru", 1
 	case "sesscache":
 		c.SessCache, c.SessCap, c.SessDur = true, 2, time.Hour
+	case "sesscache+shared":
+		// both factory-wide features at once: cached sessions over one shared intermediate-key cache
+		c.SessCache, c.SessCap, c.SessDur = true, 2, time.Hour
+		c.SharedIK, c.IKPolicy, c.IKCap = true, "lru", 4
 	}
 	return c
 }
